@@ -56,7 +56,7 @@ where
     let threads = (w.threads as usize).clamp(1, 66);
     let name = NAMES[w.op as usize % NAMES.len()];
     let mut scratch = scratch_for::<B>(threads);
-    let kind = w.kind % 3;
+    let kind = w.kind % 4;
     let mut classes: Vec<String> = vec![w.be.name().into()];
     match kind {
         0 => {
@@ -101,8 +101,15 @@ where
                 m.fhe_uint_prepare_custom_multi_thread(8, &mut pt, &other, 0, 32, &c.bdd_key, scratch.borrow());
                 classes.push("receiver_held_another_word".into());
             }
-            m.fhe_uint_prepare_custom(&mut p1, &ct, start, count, &c.bdd_key, scratch.borrow());
-            m.fhe_uint_prepare_custom_multi_thread(threads.max(2), &mut pt, &ct, start, count, &c.bdd_key, scratch.borrow());
+            if (w.seed >> 1) & 1 == 1 {
+                // the same two calls through the methods of FheUintPrepared (thin wrappers over the module-level functions)
+                p1.prepare_custom(m, &ct, start, count, &c.bdd_key, scratch.borrow());
+                pt.prepare_custom_multi_thread(threads.max(2), m, &ct, start, count, &c.bdd_key, scratch.borrow());
+                classes.push("through_struct_methods".into());
+            } else {
+                m.fhe_uint_prepare_custom(&mut p1, &ct, start, count, &c.bdd_key, scratch.borrow());
+                m.fhe_uint_prepare_custom_multi_thread(threads.max(2), &mut pt, &ct, start, count, &c.bdd_key, scratch.borrow());
+            }
             // observe every prepared bit through the identity circuit: equal GGSW bits give equal output bytes
             let mut r1: FheUint<Vec<u8>, u32> = FheUint::alloc_from_infos(&glwe_infos);
             let mut rt: FheUint<Vec<u8>, u32> = FheUint::alloc_from_infos(&glwe_infos);
@@ -125,6 +132,70 @@ where
             }
             if threads > count {
                 classes.push("threads_exceed_items".into());
+            }
+        }
+        3 => {
+            // a caller-defined circuit (public API: Node / GetBitCircuitInfo): out[i] = a[p_i] & b[q_i], or the constant 0
+            // (empty node list, no intermediate state) for a generated subset of the output bits
+            use poulpy_bin_fhe::bdd_arithmetic::{ExecuteBDDCircuit2WTo1W, GetBitCircuitInfo, Node};
+            struct Custom {
+                bits: Vec<(Vec<Node>, usize)>,
+            }
+            impl GetBitCircuitInfo for Custom {
+                fn input_size(&self) -> usize {
+                    64
+                }
+                fn output_size(&self) -> usize {
+                    32
+                }
+                fn get_circuit(&self, bit: usize) -> (&[Node], usize) {
+                    (self.bits[bit].0.as_slice(), self.bits[bit].1)
+                }
+            }
+            let mut rng = pzv_common::model::SplitMix::new(w.seed ^ 0xC1C1);
+            let mut want: u32 = 0;
+            let mut zeros = 0usize;
+            let bits: Vec<(Vec<Node>, usize)> = (0..32usize)
+                .map(|i| {
+                    let r = rng.next();
+                    if r % 4 == 0 {
+                        zeros += 1;
+                        (Vec::new(), 0usize)
+                    } else {
+                        let (pi, qi) = ((r >> 8) as usize % 32, (r >> 16) as usize % 32);
+                        want |= (((w.a >> pi) & 1) & ((w.b >> qi) & 1)) << i;
+                        (vec![Node::Copy, Node::Cmux(32 + qi, 1, 0), Node::Cmux(pi, 1, 0), Node::None], 2usize)
+                    }
+                })
+                .collect();
+            let circuit = Custom { bits };
+            let a_p = encrypt_prepared(c, w.a, false, w.seed, &mut scratch);
+            let b_p = encrypt_prepared(c, w.b, false, w.seed ^ 0xB, &mut scratch);
+            let mut r1: FheUint<Vec<u8>, u32> = FheUint::alloc_from_infos(&glwe_infos);
+            let mut rt: FheUint<Vec<u8>, u32> = FheUint::alloc_from_infos(&glwe_infos);
+            m.execute_bdd_circuit_2w_to_1w(&mut r1, &circuit, &a_p, &b_p, &c.bdd_key, scratch.borrow());
+            {
+                use poulpy_core::layouts::GLWEToMut;
+                use poulpy_hal::layouts::ZnxViewMut;
+                rt.to_mut().data_mut().raw_mut().fill(0x5A5A_5A5A_5A5A);
+            }
+            m.execute_bdd_circuit_2w_to_1w_multi_thread(threads.max(2), &mut rt, &circuit, &a_p, &b_p, &c.bdd_key, scratch.borrow());
+            let (g1, gt): (u32, u32) = (r1.decrypt(m, &c.sk_glwe, scratch.borrow()), rt.decrypt(m, &c.sk_glwe, scratch.borrow()));
+            if g1 != want || gt != want {
+                return Verdict::fail(
+                    "custom_circuit|wrong-result",
+                    format!("backend={} caller-defined circuit ({zeros} constant-zero output bits): single-threaded gives {g1:#010x}, {} threads give {gt:#010x}, expected {want:#010x}\ncase={w:?}", w.be.name(), threads.max(2)),
+                );
+            }
+            if bytes_of(&r1) != bytes_of(&rt) {
+                return Verdict::fail("custom_circuit|multi-thread-differs", format!("backend={} caller-defined circuit: {} threads give a different ciphertext than the single-threaded call\ncase={w:?}", w.be.name(), threads.max(2)));
+            }
+            classes.push("custom_circuit".into());
+            if zeros > 0 {
+                classes.push("constant_zero_output_bits".into());
+            }
+            if 32 % threads.max(2) != 0 {
+                classes.push("threads_not_dividing".into());
             }
         }
         _ => {
@@ -177,7 +248,7 @@ pub fn test(w: &Case) -> Verdict {
 
 fn strategy(bes: &'static [Be]) -> BoxedStrategy<Case> {
     let threads = prop_oneof![3 => 2u8..=33, 1 => prop_oneof![Just(31u8), Just(32), Just(33), Just(64), Just(66), Just(7), Just(5)]];
-    (0..bes.len(), 0u8..3, 0u8..11, any::<u32>(), any::<u32>(), threads, any::<u8>(), any::<u8>(), any::<u64>())
+    (0..bes.len(), 0u8..4, 0u8..11, any::<u32>(), any::<u32>(), threads, any::<u8>(), any::<u8>(), any::<u64>())
         .prop_map(move |(bi, kind, op, a, b, threads, start, count, seed)| Case {
             be: bes[bi],
             kind,
@@ -205,4 +276,4 @@ pub fn replay(ctx: &Ctx, sub: &str, case: &serde_json::Value) -> i32 {
     ctx.replay_case::<Case, _>(sub, case, test)
 }
 
-pub const RULE: &str = "cases = (backend in FFT64Ref/FFT64Avx/NTT120Ref, kind in {word op *_multi_thread, fhe_uint_prepare_custom_multi_thread over every (start, count) class into fresh receivers and into receivers that hold another prepared word, 2..7 harness threads sharing one Module + prepared keys + read-only operands with mixed word operations}, thread counts 2..33 and 64/66 (not dividing / exceeding the 32 work items), generated operands and seeds); all cases run while 15 other cases execute concurrently (oversubscription). Oracle: ciphertext bytes equal to the single-threaded / solo run; partial preparation additionally decrypts to the selected bits. non-trivial: every case.";
+pub const RULE: &str = "cases = (backend in FFT64Ref/FFT64Avx/NTT120Ref, kind in {word op *_multi_thread, fhe_uint_prepare_custom_multi_thread over every (start, count) class into fresh receivers and into receivers that hold another prepared word, 2..7 harness threads sharing one Module + prepared keys + read-only operands with mixed word operations, caller-defined circuits (Node / GetBitCircuitInfo: out[i] = a[p_i] & b[q_i] or the constant 0 with an empty node list) through execute_bdd_circuit_2w_to_1w and its multi-thread form}, thread counts 2..33 and 64/66 (not dividing / exceeding the 32 work items), generated operands and seeds); all cases run while 15 other cases execute concurrently (oversubscription). Oracle: ciphertext bytes equal to the single-threaded / solo run; partial preparation additionally decrypts to the selected bits. non-trivial: every case.";
